@@ -8,6 +8,7 @@ require (
 	github.com/klauspost/compress v1.18.4
 	github.com/mr-tron/base58 v1.2.0
 	github.com/nspcc-dev/bbolt v0.0.0-20260404200350-24f70ceb2bd9
+	github.com/nspcc-dev/locode-db v0.8.2
 	github.com/nspcc-dev/neo-go v0.122.1-0.20260807115931-cfee8827ddfd
 	github.com/nspcc-dev/neofs-contract v0.26.1
 	github.com/nspcc-dev/neofs-node v0.0.0
@@ -46,7 +47,6 @@ require (
 	github.com/nspcc-dev/dbft v0.4.0 // indirect
 	github.com/nspcc-dev/go-ordered-json v0.0.0-20260302080601-ff7471f924b3 // indirect
 	github.com/nspcc-dev/hrw/v2 v2.0.4 // indirect
-	github.com/nspcc-dev/locode-db v0.8.2 // indirect
 	github.com/nspcc-dev/neo-go/pkg/interop v0.0.0-20260609115526-14bc7067ea2e // indirect
 	github.com/nspcc-dev/neofs-api-go/v2 v2.14.1-0.20240827150555-5ce597aa14ea // indirect
 	github.com/nspcc-dev/tzhash v1.8.4 // indirect
